@@ -287,6 +287,9 @@ func c08Observe(t *biscuit.Biscuit) string {
 	o = append(o, fmt.Sprintf("GetBlockID=%d,%v", id, gerr))
 	id, gerr = t.GetBlockID(hx.Fact(atom("right", rx.Str("never-seen-2"), sRead)))
 	o = append(o, fmt.Sprintf("GetBlockID2=%d,%v", id, gerr))
+	// every name and top-level string known to the token, an unseen string only inside a set
+	id, gerr = t.GetBlockID(hx.Fact(atom("right", sRead, rx.SetOf(rx.Str("never-seen-3"), sRead))))
+	o = append(o, fmt.Sprintf("GetBlockID3=%d,%v", id, gerr))
 	pub, _ := hx.Keys(1)
 	for pi, p := range c08Panel {
 		var a biscuit.Authorizer
@@ -354,7 +357,13 @@ func c08Replay(h []c08Op, observeEvery bool) (*c08Model, *c08Fail) {
 		case "add":
 			var blk refdl.Block
 			c08Item(o.B).addTo(&blk)
-			err = hx.FillBlock(wd.builders[o.A], blk)
+			// two routes into a builder, alternating with the builder's index and the pass: one Add call per
+			// element, or one AddBlock call with a parsed block
+			if (o.A+map[bool]int{false: 0, true: 1}[observeEvery])%2 == 0 {
+				err = hx.FillBlockParsed(wd.builders[o.A], blk)
+			} else {
+				err = hx.FillBlock(wd.builders[o.A], blk)
+			}
 		case "build":
 			wd.blocks = append(wd.blocks, wd.builders[o.A].Build())
 		case "append":
